@@ -729,14 +729,19 @@ def andxOk (andx : Bool) (env : Env) : Bool :=
     | some (.ns [c, r, o]) => c < 256 && r < 256 && o < 65536
     | _ => false)
 
-/-- C04 "internally consistent" -/
+/-- C04 "internally consistent": a condition on the field *values* (they fit their slots, lengths and counts agree with
+    their buffers, nested values are in their domain, the blocks fit their count fields).  Where Marshal puts the
+    bytes is not among them: a program that writes a field ahead of the parameter block (`MState.head`, `subHead`) is
+    judged on the same assignments as any other — the fragment predicates exclude it and the round-trip oracle exhibits
+    it (WriteRequest did so until fixes/C04-writerequest-data-block.diff; while `consistent` asked `head` to be empty the
+    oracle was silent on that command and the defect stayed hidden). -/
 def consistent (C : Codecs) (c : Cmd) (env : Env) : Bool :=
   andxOk c.isAndX env &&
   match runM C c env with
   | .ok s =>
     intsFit s.env c.marshal && relationsHold C s.env s.P.length 0 c.unmarshal &&
     s.P.length % 2 == 0 && wordCountOf c.isAndX s.P ≤ 255 && s.D.length ≤ 65535 &&
-    (s.P.length > 0 || s.D.length > 0 || c.fields.isEmpty) && s.head.isEmpty
+    (s.P.length > 0 || s.D.length > 0 || c.fields.isEmpty)
   | _ => false
 
 /-! known C04 findings, decided on the extracted programs (not on the failing input):
